@@ -35,7 +35,11 @@ def gen_case(rng):
         kind = rng.choice(["sub_new", "sub_split", "sub_joined"])
         if kind == "sub_split":
             i, j = nxt, nxt + 1; nxt += 2
-            p = [("sub_split", [i, j])] + [("cons", [rng.choice([i, j])]) for _ in range(rng.randint(2, 8))]
+            if rng.random() < 0.5:
+                p = [("sub_split", [i, j])] + [("cons", [rng.choice([i, j])]) for _ in range(rng.randint(2, 8))]
+            else:
+                # drain the old stream to its end (it answers 'nothing' once), then read the new one
+                p = [("sub_split", [i, j])] + [("cons", [i])] * 14 + [("cons", [j])] * rng.randint(1, 6)
         else:
             i = nxt; nxt += 1
             p = [(kind, [i])] + [("cons", [i]) for _ in range(rng.randint(1, 6))]
@@ -54,6 +58,7 @@ def oracle(case, recs):
     progs = case.meta["progs"]; pos = {}
     pubs = {}           # position -> value (from publishers' returns)
     got = {}            # subscriber -> list of (position, value)
+    ended = set()       # subscribers that answered 'nothing' at least once
     kinds = {}          # subscriber -> ("new"|"joined"|"old"|"newsplit", partner)
     last_pub_pos = {}
     for r in recs:
@@ -71,6 +76,8 @@ def oracle(case, recs):
             else: kinds[op[1][0]] = ("joined", None)
         elif r[2] == 61:
             got.setdefault(op[1][0], []).append((r[4], r[3]))
+        elif r[2] == 62:
+            ended.add(r[3])
         elif r[0] == "panic": hits.append((None, "panic"))
     for i, l in got.items():
         ps = [p for p, v in l]
@@ -84,6 +91,11 @@ def oracle(case, recs):
             old = [p for p, v in got[i]]; new = [p for p, v in got[partner]]
             if set(old) & set(new): hits.append((None, "positions %s were yielded by both the old and the new stream of a split" % sorted(set(old) & set(new))))
             if old and new and max(old) + 1 != min(new) and max(old) >= min(new): hits.append((None, "old/new split overlaps"))
+        if k == "old" and i in ended and partner in got:
+            # the old stream was read to its end: it holds exactly the events before the split point, the new stream starts right there
+            old = [p for p, v in got.get(i, [])]; new = [p for p, v in got[partner]]
+            if new and min(new) != len(old):
+                hits.append((None, "an old/new split lost events: the old stream ended after positions %s and the new stream starts at position %d" % (old, min(new))))
     # same value at the same position for all listeners
     seen = {}
     for i, l in got.items():
